@@ -2006,7 +2006,7 @@ def run(ctx: vf.Ctx):
         for f in sorted(cdir.glob('*.json')):
             d = json.loads(f.read_text())
             corpus.append(dict(fam=d['fam'], case=d['case'], timeout=120))
-    tasks = corpus + gen_tasks(ctx, rng)
+    tasks = corpus + gen_tasks(ctx, rng, scale=float(os.environ.get('VERIF_C10_SCALE', '1') or 1))
     results = run_pool(tasks)
     absorb(ctx, results, stats)
     if all(ctx.extract_ok.get(k) for k in BUILD['extracted']):
